@@ -21,6 +21,15 @@ var droppedPkgs = map[string]bool{
 	"github.com/openebs/sparse-tools/sparse/journal":     true,
 }
 
+// jiva packages that are HTTP/exec client glue: never inlined; calls are assumed heap-neutral with
+// unconstrained results unless a trusted contract says otherwise (listed in the evidence)
+var externalPkgs = map[string]bool{
+	jivaMod + "/replica/client":    true,
+	jivaMod + "/controller/client": true,
+	jivaMod + "/sync/agent":        true,
+	jivaMod + "/alertlog":          true,
+}
+
 func (e *Engine) staticCallee(info *types.Info, call *ast.CallExpr) *types.Func {
 	switch f := call.Fun.(type) {
 	case *ast.Ident:
@@ -152,7 +161,7 @@ func (fr *Frame) evalCall(st *State, call *ast.CallExpr, nWant int) []*Term {
 		if fc := e.cs.Funcs[key]; fc != nil && !(fr.top.fc == fc) {
 			return fr.applyContract(st, fc, fn, sig, recv, args, call)
 		}
-		if fi := e.funcs[key]; fi != nil {
+		if fi := e.funcs[key]; fi != nil && !externalPkgs[pkgPath] {
 			if fc := e.cs.Funcs[key]; fc != nil {
 				// recursive call of the function under verification: use its contract
 				return fr.applyContract(st, fc, fn, sig, recv, args, call)
@@ -446,7 +455,12 @@ func (fr *Frame) evalBuiltin(st *State, call *ast.CallExpr, name string) []*Term
 		arr := Acc(s, "arr")
 		n := Acc(s, "len")
 		for _, a := range call.Args[1:] {
+			prev := arr
 			arr = Store(arr, n, fr.evalAs(st, a, et))
+			// array-theory tautology stated with a trigger on the old array: lets the solver carry
+			// witnesses found in the old slice over to the appended one
+			j := Var("j!p", IntSort)
+			st.Assume(Forall([]*Term{j}, Implies(Neq(j, n), Eq(mk("select", arr.S.V, arr, j), Select(prev, j))), []*Term{Select(prev, j)}))
 			n = Add(n, IntLit(1))
 		}
 		return []*Term{Ctor(s.S, arr, n)}
@@ -946,7 +960,9 @@ func (fr *Frame) inline(st *State, fi *FuncInfo, recv *Term, args []*Term, call 
 			fr.unsupported(call, "control flow escapes inlined %s", shortKey(fi.Key))
 		}
 	}
+	e.forceMerge = true
 	rets = e.mergeAll(rets)
+	e.forceMerge = false
 	if len(rets) == 0 {
 		st.Assume(False)
 		return fr.freshResults(st, sig, "dead")
@@ -1034,7 +1050,9 @@ func (fr *Frame) inlineClosure(st *State, fl *ast.FuncLit, call *ast.CallExpr) [
 			fr.unsupported(call, "control flow escapes closure")
 		}
 	}
+	e.forceMerge = true
 	rets = e.mergeAll(rets)
+	e.forceMerge = false
 	if len(rets) == 0 {
 		st.Assume(False)
 		return fr.freshResults(st, sig, "dead")
